@@ -57,6 +57,12 @@ pub fn replay_hx_violation(cfg: &HxCfg, v: &Violation) -> Result<bool, String> {
     let mut c = cfg.clone();
     c.shared = std::sync::Arc::default();
     let fs = rerun_hx(&c, &v.history, &v.at, v.aux.as_ref())?;
+    if v.kind.starts_with("continuation-differs-after-") {
+        // differential kind: the history diverges at its last step, and the history without the swaps does not
+        let is_swap = |o: &Op| if v.kind.ends_with("reload") { matches!(o, Op::ReloadSwap) } else { matches!(o, Op::CloneSwap) };
+        let stripped: Vec<Op> = v.history.iter().copied().filter(|o| !is_swap(o)).collect();
+        return Ok(!fs.is_empty() && hx::history_follows_model(&c, &stripped));
+    }
     Ok(fs.iter().any(|f| f.kind == v.kind))
 }
 
@@ -135,7 +141,12 @@ pub fn replay_file(path: &str) -> i32 {
                     for f in &fs {
                         println!("  observed [{}] tags {:?}: {}", f.kind, f.tags, f.detail);
                     }
-                    if fs.iter().any(|f| f.kind == kind) {
+                    let differential = kind.starts_with("continuation-differs-after-") && !fs.is_empty() && {
+                        let is_swap = |o: &Op| if kind.ends_with("reload") { matches!(o, Op::ReloadSwap) } else { matches!(o, Op::CloneSwap) };
+                        let stripped: Vec<Op> = history.iter().copied().filter(|o| !is_swap(o)).collect();
+                        hx::history_follows_model(&cfg, &stripped)
+                    };
+                    if differential || fs.iter().any(|f| f.kind == kind) {
                         println!("REPRODUCED property={} kind={kind}", cfg.prop);
                         1
                     } else {
